@@ -137,7 +137,7 @@ type caseState struct {
 	viols []violation
 	nviol int64
 
-	callsOK, callsFailed, pushesSent, pushesOK int64
+	callsOK, callsFailed, pushesSent, pushesOK, rawPushes int64
 	failSamples                                 []string
 	pushSeen                                    sync.Map
 	pushRecv                                    int64
@@ -322,6 +322,14 @@ func runCase(id string, cfg Config, r *core.Rand) {
 	worker := func(sess erpc.Session, side string, si, gi int, gr *core.Rand) {
 		defer wg.Done()
 		ctr := 0
+		// a long-lived receiver for []byte results, reused from call to call (it keeps the previous, possibly longer, result)
+		reused := new([]byte)
+		newResult := func(kind string) interface{} {
+			if kind == "bytes" && gr.Intn(2) == 0 {
+				return reused
+			}
+			return tok.NewResult(kind)
+		}
 		next := func() (string, string) {
 			ctr++
 			return cfg.Kinds[gr.Intn(len(cfg.Kinds))], fmt.Sprintf("%s.%s%d.%d.%d", nonce, side, si, gi, ctr)
@@ -331,7 +339,7 @@ func runCase(id string, cfg Config, r *core.Rand) {
 			case x < 5: // Call
 				kind, t := next()
 				arg := tok.Build(kind, t, tok.Payload(t))
-				cmd := sess.Call(tok.CallRoute(kind, gr.Intn(2) == 0), arg, tok.NewResult(kind), settings(cfg, kind, t)...)
+				cmd := sess.Call(tok.CallRoute(kind, gr.Intn(2) == 0), arg, newResult(kind), settings(cfg, kind, t)...)
 				cs.checkReply(kind, t, cmd, arg)
 			case x < 8: // a burst of AsyncCalls on one shared completion channel
 				k := 1 + gr.Intn(6)
@@ -364,7 +372,14 @@ func runCase(id string, cfg Config, r *core.Rand) {
 				}
 				kind, t := next()
 				arg := tok.Build(kind, t, tok.Payload(t))
-				st := sess.Push(tok.PushRoute(kind), arg, settings(cfg, kind, t)...)
+				var st *erpc.Status
+				if ps, ok := sess.(erpc.PreSession); ok && gr.Intn(3) == 0 {
+					// the plugin-less push of an early-session handle kept by a plugin; it shares the session's write path
+					st = ps.RawPush(tok.PushRoute(kind), arg, settings(cfg, kind, t)...)
+					atomic.AddInt64(&cs.rawPushes, 1)
+				} else {
+					st = sess.Push(tok.PushRoute(kind), arg, settings(cfg, kind, t)...)
+				}
 				atomic.AddInt64(&cs.pushesSent, 1)
 				if st.OK() {
 					atomic.AddInt64(&cs.pushesOK, 1)
@@ -436,6 +451,7 @@ func runCase(id string, cfg Config, r *core.Rand) {
 	core.Add("calls_ok", cs.callsOK)
 	core.Add("calls_failed", cs.callsFailed)
 	core.Add("pushes_sent", cs.pushesSent)
+	core.Add("raw_pushes_sent", cs.rawPushes)
 	core.Add("pushes_received", atomic.LoadInt64(&cs.pushRecv))
 	core.Add("handler_invocations", mon.Handled)
 	core.Add("ctx_recycles_observed", mon.Recycles)
